@@ -12,7 +12,8 @@
 //   export                            => [doc ..]|undecodable   exported documents in file order, as b6 decodes them
 //   import                            => ok|err@<k>             Apply on the fresh world (k = documents applied)
 //   state2                            => mods:[..] feats:[..]   overlay of the re-imported world
-//   obs1 / obs2                       => per-id features + each || refs, coordinates, searches
+//   obs1 / obs2                       => per-id features + each || refs, coordinates, searches, FindValue(s) of every collection key
+//   flags2                            => [id:0|1 ..]            IsSortedByKey of the re-imported world's collections
 //   infer <hex>                       => <value>                b6.ExpressionFromString
 //   roundtrip <value>                 => <value>|err            one tag through Tag.MarshalYAML / UnmarshalYAML
 package main
@@ -501,7 +502,70 @@ func intsTok(xs []int) string {
 	return strings.Join(ss, ",")
 }
 
-func obs(w b6.World, qs []query) string {
+// collectionKeys lists, per collection id, the keys to look up: every key either world holds, plus absent ones.
+func collectionKeys(ws ...b6.World) map[int][]interface{} {
+	out := map[int][]interface{}{}
+	for _, n := range AllIDs {
+		seen := map[string]bool{}
+		for _, w := range ws {
+			if cf, ok := w.FindFeatureByID(FID(n)).(b6.CollectionFeature); ok {
+				it := cf.BeginUntyped()
+				for {
+					ok, err := it.Next()
+					if !ok || err != nil {
+						break
+					}
+					if tok := literalTok(it.Key()); !seen[tok] {
+						seen[tok] = true
+						out[n] = append(out[n], it.Key())
+					}
+				}
+			}
+		}
+		if len(seen) > 0 || n/1000 == 4 {
+			out[n] = append(out[n], "zz", "", 7, -100, 2.0, 0.25, FID(40), FID(1))
+		}
+	}
+	return out
+}
+
+func collectionProbes(n int, cf b6.CollectionFeature, keys []interface{}) []string {
+	var out []string
+	for _, key := range keys {
+		kt := literalTok(key)
+		out = append(out, fmt.Sprintf("fv:%d:%s=%s", n, kt, hx.Recover(func() string {
+			if v, ok := cf.FindValue(key); ok {
+				return literalTok(v)
+			}
+			return "-"
+		})))
+		out = append(out, fmt.Sprintf("fvs:%d:%s=%s", n, kt, hx.Recover(func() string {
+			var vs []string
+			for _, v := range cf.FindValues(key, nil) {
+				vs = append(vs, literalTok(v))
+			}
+			return strings.Join(vs, "+")
+		})))
+	}
+	return out
+}
+
+// sortedFlags: IsSortedByKey of every collection (what newCollectionFeatureFromYAML computes on import)
+func sortedFlags(w b6.World) string {
+	var out []string
+	for _, n := range AllIDs {
+		if cf, ok := w.FindFeatureByID(FID(n)).(b6.CollectionFeature); ok {
+			flag := 0
+			if cf.IsSortedByKey() {
+				flag = 1
+			}
+			out = append(out, fmt.Sprintf("%d:%d", n, flag))
+		}
+	}
+	return hx.List(out)
+}
+
+func obs(w b6.World, qs []query, probes map[int][]interface{}) string {
 	return hx.Recover(func() string {
 		var a, b []string
 		for _, n := range AllIDs {
@@ -538,6 +602,9 @@ func obs(w b6.World, qs []query) string {
 				if p, ok := f.(b6.PhysicalFeature); ok && f.FeatureID().Type == b6.FeatureTypePoint {
 					b = append(b, fmt.Sprintf("pt:%d=%s", n, hx.Recover(func() string { return llTok(s2.LatLngFromPoint(p.Point())) })))
 				}
+			}
+			if cf, ok := f.(b6.CollectionFeature); ok && f != nil {
+				b = append(b, collectionProbes(n, cf, probes[n])...)
 			}
 			if has != (f != nil) {
 				b = append(b, fmt.Sprintf("!has:%d", n))
@@ -777,8 +844,10 @@ func (k *Case) Finish() (docs string, imp string) {
 	c.Op("import "+intsWords(chosen), imp)
 	c.Op("state2", stateTok(w2))
 	qs := collectQueries(k.w, w2)
-	c.Op("obs1", obs(k.w, qs))
-	c.Op("obs2", obs(w2, qs))
+	probes := collectionKeys(k.w, w2)
+	c.Op("obs1", obs(k.w, qs, probes))
+	c.Op("obs2", obs(w2, qs, probes))
+	c.Op("flags2", sortedFlags(w2))
 	return docs, imp
 }
 
@@ -937,28 +1006,86 @@ func randFeature(r *hx.Rand, c *hx.Ctx) Feat {
 		return Feat{ID: id, Body: "r:" + strings.Join(ms, ","), Tags: tags}
 	default:
 		id := collectionIDs[r.Intn(len(collectionIDs))]
-		n := r.Intn(4)
+		n := r.Intn(6)
+		shape := r.Intn(8)
+		keys := make([]string, n)
+		for i := range keys {
+			keys[i] = collectionKey(r, c, shape)
+		}
+		if n > 1 && r.Chance(1, 4) {
+			keys[r.Intn(n)] = keys[r.Intn(n)] // a repeated key
+		}
+		prefix := "c:"
+		if shape < 4 && r.Chance(1, 2) {
+			// keys of one kind: sometimes in order, and then sometimes through CollectionFeature.Sort()
+			sort.SliceStable(keys, func(i, j int) bool {
+				less, _ := b6.Less(literalOf(keys[i]), literalOf(keys[j]))
+				return less
+			})
+			if r.Chance(1, 2) {
+				prefix = "cs:"
+			}
+		}
 		es := make([]string, n)
 		for i := range es {
-			var key string
-			if r.Chance(1, 2) {
-				key = idAtom(AllIDs[r.Intn(len(AllIDs))])
-			} else {
-				key = collectionAtom(r, c)
-			}
-			es[i] = key + ">" + collectionAtom(r, c)
+			es[i] = keys[i] + ">" + collectionAtom(r, c)
 		}
-		c.Note(fmt.Sprintf("feat:collection%d", n))
-		return Feat{ID: id, Body: "c:" + strings.Join(es, ","), Tags: tags}
+		c.Note(fmt.Sprintf("feat:collection%d", min(n, 3)))
+		c.Note(fmt.Sprintf("collection-keys:shape%d%s", shape, prefix))
+		return Feat{ID: id, Body: prefix + strings.Join(es, ","), Tags: tags}
+	}
+}
+
+// collectionKey draws a key: shapes 0-3 are of one kind (ints, floats, strings, feature ids), 4 mixes ints and
+// floats (b6.Less compares them one way round only), 5 ints and strings (not comparable), 6 anything, 7 ids and points.
+func collectionKey(r *hx.Rand, c *hx.Ctx, shape int) string {
+	smallInt := func() string { return "i:" + strconv.Itoa(r.Intn(9)-3) }
+	smallFloat := func() string {
+		return floatAtom([]float64{-2.5, -1, 0, 0.5, 1, 1.5, 2, 2.5, 3, 1e6}[r.Intn(10)])
+	}
+	str := func() string { return sv(r.Pick([]string{"a", "b", "B", "ab", "", "1", "10", "2", "é", "1,2", "/point/x/1", "null"})) }
+	switch shape {
+	case 0:
+		return smallInt()
+	case 1:
+		return smallFloat()
+	case 2:
+		return str()
+	case 3:
+		return idAtom(AllIDs[r.Intn(len(AllIDs))])
+	case 4:
+		if r.Bool() {
+			return smallInt()
+		}
+		return smallFloat()
+	case 5:
+		if r.Bool() {
+			return smallInt()
+		}
+		return str()
+	case 6:
+		return collectionAtom(r, c)
+	default:
+		if r.Bool() {
+			return idAtom(AllIDs[r.Intn(len(AllIDs))])
+		}
+		return pAtom([2]int{515360000 + r.Intn(5), -1250000 + r.Intn(5)})
 	}
 }
 
 func collectionAtom(r *hx.Rand, c *hx.Ctx) string {
 	for {
-		// NaN keys / values never compare equal; not the subject here
-		if a := randAtom(r, c); a != "f:nan" {
-			return a
+		// NaN never compares equal and ints beyond 2^53 lose precision against floats; not the subject here
+		a := randAtom(r, c)
+		if a == "f:nan" || a == "f:7ff0000000000000" || a == "f:fff0000000000000" {
+			continue
 		}
+		if strings.HasPrefix(a, "i:") {
+			if n, _ := strconv.Atoi(a[2:]); n > 1<<50 || n < -(1<<50) {
+				continue
+			}
+		}
+		return a
 	}
 }
 
